@@ -44,6 +44,12 @@ pub fn exercise_archive(ctx: &mut Ctx, bytes: &[u8], label: &str, class: &str) {
         let _ = guard(|| Header::from_bytes(bytes));
         return;
     }
+    if ctx.sub == "miri" && (est.tiles > 5_000 || est.visits > 500 || est.max_len > 1 << 20) {
+        // sizing, not a verdict: inside the interpreter an expansion of a million ids or a
+        // gigabyte zero-fill takes hours; the native layers run these inputs
+        ctx.count("miri_skipped_large_expansion");
+        return;
+    }
     if est.cycle {
         ctx.count("inputs_with_pointer_cycle");
     }
@@ -417,7 +423,8 @@ pub fn crafted(rng: &mut Rng, codecs: &[u8], small_only: bool, bombs: bool) -> V
         let a = base_archive(codec, dir_with(2, &[1, 1], &[1, 1], &[u64::from(u32::MAX), u64::from(u32::MAX)], &[1, 5]));
         add("oversized-length", format!("{cn}: tile length 2^32-1 in a 64-byte data section"), &a, rng);
         // many entries whose declared lengths add up to tens of GiB (a re-write must not reserve their sum)
-        {
+        // (not in the Miri layer: every lookup of such a tile zero-fills gigabytes inside the interpreter)
+        if !small_only {
             let n = 12usize;
             let ids: Vec<u64> = (0..n as u64).map(|i| if i == 0 { 1 } else { 2 }).collect();
             let offs: Vec<u64> = (0..n as u64).map(|i| 1 + i * 3).collect();
